@@ -19,12 +19,14 @@ import (
 type epJ struct {
 	H int `json:"h"`
 	W int `json:"w"`
+	T int `json:"t"` // weight type: 1 static, 0 none ("loop")
 }
 
 type opJ struct {
 	O string `json:"o"` // "F" refresh, "A" add, "R" remove
 	H int    `json:"h"`
 	W int    `json:"w"`
+	T int    `json:"t"`
 	L []epJ  `json:"l"`
 }
 
@@ -56,13 +58,18 @@ func applyOp(sel selector.Selector, op opJ) (bool, *crash) {
 		case "F":
 			eps := make([]endpoint.Endpoint, 0, len(op.L))
 			for _, e := range op.L {
-				eps = append(eps, mkEp(e.H, e.W))
+				eps = append(eps, mkEp(e.H, e.W, e.T))
 			}
 			sel.Refresh(eps)
+			// the list belongs to the caller, who goes on using it (the endpoint manager edits the list it has just
+			// installed in place): whatever is written into it later is not an operation on the selector
+			for i := range eps {
+				eps[i] = mkEp(9, 1, 1)
+			}
 		case "A":
-			err = sel.Add(mkEp(op.H, op.W))
+			err = sel.Add(mkEp(op.H, op.W, op.T))
 		case "R":
-			err = sel.Remove(mkEp(op.H, op.W))
+			err = sel.Remove(mkEp(op.H, op.W, op.T))
 		default:
 			panic("seldrive: unknown op " + op.O)
 		}
